@@ -165,6 +165,15 @@ def _single(tg, limit, maxdepth, cross, acc, viol):
                  "tapes gave different results" % (_trip_count() - trip0))
             return
         acc.observe("%s consulted the process-wide RNG although an entropy source was supplied (results unaffected)" % tg.fam)
+    elif len(leaves) + len(opens) <= 256:
+        # two runs on the same tape agree (cheap for one-byte attempts; larger trees re-execute prefixes anyway)
+        l2, o2, n = _expand(run, (), A, tapecls)
+        acc.count("evaluations", n)
+        acc.count("attempts_enumerated_twice")
+        if l2 != leaves or o2 != opens:
+            viol("not-a-function-of-the-tape", "two enumerations of the same %d tapes gave different results although the "
+                 "process-wide RNG was not consulted" % (len(leaves) + len(opens)))
+            return
     # ---- bounds and exact uniformity of the fresh attempt
     r = analyze(leaves, tg)
     if r:
@@ -608,7 +617,7 @@ def build_jobs(q):
 
     def single(spec, limit, md, cross=False):
         J.append((("single", spec, limit, md, cross), _predict(spec, limit, md, cross)))
-    L_SMALL, L_FULL, L_DEEP = 2048, 32768, 1 << 18
+    L_SMALL, L_MID, L_FULL, L_DEEP = 2048, 16384, 32768, 1 << 18
     # ---- A: Integer.random, 1..16 bits, exact/max, three back-ends (no rejection: the tree is complete)
     for be in BACKENDS:
         for bits in range(1, 17):
@@ -632,7 +641,7 @@ def build_jobs(q):
                         lim = L_SMALL
                     single(("irange", be, lo, nm, incl), lim, 2)
     for nm in range(1, 256):           # deeper: Native, min=1
-        single(("irange", "Native", 1, nm, True), L_FULL if q else L_DEEP, 1 if q else 2)
+        single(("irange", "Native", 1, nm, True), L_MID if q else L_DEEP, 1 if q else 2)
     for be in ("Custom", "GMP"):
         for k in range(1, 9):
             for nm in ((1 << k) - 2, (1 << k) - 1, 1 << k, (1 << k) + 1):
@@ -645,12 +654,14 @@ def build_jobs(q):
             for nm in (256, 300, 512, 65535):
                 single(("irange", be, 2, nm, False), L_FULL, 1)
     else:
+        crossed = set(range(256, 301, 4)) | {511, 512, 513, 4095, 4096, 4097, 65534, 65535}
         for incl in (True, False):
             for nm in _two_byte_nms(incl):
-                for lo in range(4):
-                    single(("irange", "Native", lo, nm, incl), L_FULL, 1, cross=(lo == 1 and incl))
-                for be in ("Custom", "GMP"):
-                    single(("irange", be, 3, nm, incl), L_FULL, 1, cross=(incl and nm in (300, 511, 512)))
+                for lo in (range(4) if incl else (0, 3)):
+                    single(("irange", "Native", lo, nm, incl), L_FULL, 1, cross=(lo == 1 and incl and nm in crossed))
+                if incl:
+                    for be in ("Custom", "GMP"):
+                        single(("irange", be, 3, nm, incl), L_FULL, 1, cross=(nm in (300, 511, 512)))
         for part in range(32):
             J.append((("sharded", ("irange", "Native", 1, 65536, True), tuple(range(part * 8, part * 8 + 8)), 32), 65536 * 8 * 22))
     # ---- C: StrongRandom
@@ -673,7 +684,7 @@ def build_jobs(q):
         for w in (1, 2, 7, 300):
             single(("randrange", "randfunc", start + w, start, -1), L_SMALL, 1)
     for w in range(1, 256):
-        single(("randrange", "randfunc", 1, 1 + w, 1), L_FULL if q else L_DEEP, 1 if q else 2)
+        single(("randrange", "randfunc", 1, 1 + w, 1), L_MID if q else L_DEEP, 1 if q else 2)
     for variant in ("rng", "module"):
         for w in range(1, 41):
             single(("randrange", variant, 0, w, 1), L_SMALL, 2)
@@ -695,7 +706,7 @@ def build_jobs(q):
     for a in range(4):
         for d in range(1, 302):
             if d - 1 <= 255:
-                single(("grr", a, a + d), (L_FULL if a == 1 else L_SMALL) if q else L_FULL, 2)
+                single(("grr", a, a + d), (L_MID if a == 1 else L_SMALL) if q else L_FULL, 2)
             elif not q or (a == 1 and d in (257, 258, 301)):
                 single(("grr", a, a + d), L_FULL, 1, cross=(a == 1 and d == 301))
     # ---- E: composite selections
@@ -730,9 +741,7 @@ def build_jobs(q):
         bigtree(("shuffle", "randfunc", 3), 1, 11000000 * 10)
         bigtree(("shuffle", "randfunc", 2), 2, 4300000 * 10)
         bigtree(("sample", "randfunc", 5, 3), 0, 17000000 * 10)
-        bigtree(("sample", "randfunc", 3, 3), 0, 17000000 * 10)
         bigtree(("sample", "randfunc", 5, 2), 1, 17000000 * 10)
-        bigtree(("sample", "randfunc", 3, 2), 1, 12000000 * 10)
     # ---- F: cryptographic sizes
     for spec in consumer_specs(q):
         J.append((("consumer", spec), 900000 if spec[0] == "rsagen" else (60000 if spec[0] in ("dsasig", "dsagen", "blind", "dsafull") else 8000)))
@@ -938,6 +947,7 @@ def run(ctx):
         "cross_enumerated_two_byte_cases": n.get("cross_configs", 0),
         "cross_pairs": n.get("cross_pairs", 0),
         "attempt_maps_equal_to_reference_sampler": n.get("attempt_maps_equal_reference", 0),
+        "attempts_enumerated_twice_for_determinism": n.get("attempts_enumerated_twice", 0),
         "composite_trees": n.get("tree_configs", 0),
         "composite_tree_rejection_groups": n.get("tree_groups", 0),
         "split_three_byte_attempt_trees": n.get("sharded_configs", 0),
@@ -951,8 +961,8 @@ def run(ctx):
                                     "1-byte tape, plus every further attempt after every rejected prefix while a level has <= %s tapes "
                                     "(<= 2 rejections); Native min=1: limit %s; ranges of 9..16 bits (%s): every 2-byte tape of the "
                                     "first attempt, cross enumeration after a rejection on the marked cases%s"
-                                    % ("2048 (quick)" if q else "32768 (Native; min 0,3 for Custom/GMP), 2048 otherwise", "32768" if q else "262144",
-                                       "15 Native + 4 Custom/GMP boundary widths" if q else "max-min 256..300 and 2^k-1,2^k,2^k+1 for k<=16",
+                                    % ("2048 (quick)" if q else "32768 (Native; min 0,3 for Custom/GMP), 2048 otherwise", "16384" if q else "262144",
+                                       "15 Native + 4 Custom/GMP boundary widths" if q else "max-min 256..300 and 2^k-1,2^k,2^k+1 for k<=16: Native min 0..3 (max_inclusive) / 0,3 (max_exclusive), Custom/GMP min=3",
                                        "" if q else "; 17-bit range [1, 65537]: all 2^24 tapes of the first attempt (Native)"),
             "StrongRandom": "getrandbits 1..16%s (randfunc=), 1..9,16 (rng=, module level); randrange start 0..3 x width 1..301 x step 1,2,3 "
                             "(+ step -1), randint a 0..3 x b-a 1..300, choice n<=7; byte-level trees: shuffle n<=%s, sample n<=5 k<=%s; "
